@@ -267,11 +267,13 @@ def specval(v, st=None, ex=None):
         if isinstance(o, DictV):
             return {k: specval(x, st, ex) for k, x in o.items.items()}
         if isinstance(o, ListV):
-            if ex is not None:
-                t, _ = ex.list_term(o, st)
-                return t
             if o.items is None:
                 return o.t
+            homogeneous = all(isinstance(x, Sym) and x.tag in SEQ_OF_TAG for x in o.items)
+            if ex is not None and homogeneous:
+                t, _ = ex.list_term(o, st)      # (an empty display becomes the empty run list)
+                return t
+            return [specval(x, st, ex) for x in o.items]
         return v
     if isinstance(v, SliceV):
         return SliceV(specval(v.start, st, ex), specval(v.stop, st, ex), specval(v.step, st, ex))
